@@ -277,7 +277,7 @@ func GenParamSetWide(t *rapid.T, id uint) *ParamSet {
 		Time:    uint32(rapid.IntRange(1, 3).Draw(t, "time")),
 		Memory:  uint32(rapid.SampledFrom([]int{8, 9, 15, 16, 31, 32, 64, 100, 256}).Draw(t, "memory")),
 		Threads: uint8(rapid.IntRange(1, 4).Draw(t, "threads")),
-		Length:  uint32(rapid.SampledFrom([]int{4, 5, 16, 17, 24, 32, 33, 48, 64}).Draw(t, "length"))}
+		Length:  uint32(rapid.SampledFrom([]int{4, 5, 16, 17, 24, 32, 33, 48, 64, 64, 32, 16, 1024, 3040, 3072, 4096, 6000}).Draw(t, "length"))}
 }
 
 func GenParamSet(t *rapid.T, id uint) *ParamSet {
